@@ -4,6 +4,7 @@ var commonAssume = []string{
 	"seeded search samples histories; a clean batch is evidence, not proof",
 	"the instrumented copy (imports of os/sync/sync-atomic/time/crypto-rand re-pointed to shims, channel ops translated to polling helpers) behaves like the shipped code; the repository's own tests pass against it with inactive shims",
 	"files are real files on tmpfs; third-party code (flock, art, mmap) runs real and un-instrumented",
+	"about one Publish in 120 of the engine-H profiles carries one message beyond the 64 MiB the writers accept (the whole batch must be refused and leave nothing behind); about 15 % of the multi helpers are interrupted by a failing backoff (they must report exactly what they removed); a third of the reopens are not observed, a fifth look through a read-only handle first",
 	"one run in eight (engines H and S) drives the log through the typed facade TLog[string,string] with StringCodec; there the in-place assignment of offsets/times by Publish is not observable and is completed from the returned next offset and the simulated clock",
 }
 
@@ -19,12 +20,12 @@ func init() {
 		Assume:    commonAssume,
 		Technique: "deterministic simulation: seeded history search, offset bookkeeping oracle"})
 	register(&PropDef{ID: "C03", Engine: "H", Profile: "holes", Hooks: hooksC03, Level: "exploration", QuickS: 40, ThorS: 600,
-		Rule:      "one evaluation = one seeded history over hole patterns; at sampled steps Consume is called for every offset in [-5, NextOffset+2] x maxCount {1,2,7,40} (thorough: 1..40) and each result is checked against the predicate derived from the model, plus a full cursor walk from OffsetOldest; distinct_nontrivial counts distinct state signatures of runs whose log had holes when checked",
+		Rule:      "one evaluation = one seeded history over hole patterns; at sampled steps Consume is called for every offset in [-5, NextOffset+2] x maxCount {1,2,7,40} (thorough: 1..40), with maxCount MaxInt64 / 2^40 / MaxInt32 and with offsets far beyond NextOffset and each result is checked against the predicate derived from the model, plus a full cursor walk from OffsetOldest; distinct_nontrivial counts distinct state signatures of runs whose log had holes when checked",
 		Trigger:   []string{"holes_checked"},
 		Assume:    commonAssume,
 		Technique: "deterministic simulation: seeded history search, Consume predicate vs reference model over all offsets"})
 	register(&PropDef{ID: "C04", Engine: "H", Profile: "holes", Hooks: hooksC04, Level: "exploration", QuickS: 40, ThorS: 480,
-		Rule:      "one evaluation = one seeded history over hole patterns; at every step Get is called for every offset in [0, NextOffset+2] and both relative offsets, classified (message / ErrNotFound / ErrInvalidOffset) against the model and compared with Consume(o,1); distinct_nontrivial counts distinct state signatures of runs that deleted something",
+		Rule:      "one evaluation = one seeded history over hole patterns; at every step Get is called for every offset in [0, NextOffset+2], offsets far beyond NextOffset and both relative offsets, classified (message / ErrNotFound / ErrInvalidOffset) against the model and compared with Consume(o,1); distinct_nontrivial counts distinct state signatures of runs that deleted something",
 		Trigger:   []string{"deleted_some"},
 		Assume:    commonAssume,
 		Technique: "deterministic simulation: seeded history search, Get taxonomy vs reference model over all offsets"})
@@ -69,12 +70,12 @@ func init() {
 		Assume:    commonAssume,
 		Technique: "deterministic simulation: seeded history search over version options, differential observation + reference-codec version detection"})
 	register(&PropDef{ID: "C19", Engine: "H", Profile: "lock", Hooks: hooksC19, Gen: genPlanC19, Level: "exploration", QuickS: 40, ThorS: 480,
-		Rule:      "one evaluation = one seeded sequence of writer sessions and reader sessions (1-3 read-only handles) on one directory with conflicting Open attempts, Opens that fail for other reasons (missing directory, damaged index header, unaligned index) and index loss between sessions; Open must succeed exactly when the lock state machine allows it, a failed Open must leave the lock free, read-only handles must reject Publish/Delete, answer the battery like the model and like the writer, and leave every *.log byte-identical; distinct_nontrivial counts distinct state signatures of runs with a refused conflicting Open or a checked read-only battery",
+		Rule:      "one evaluation = one seeded sequence of writer sessions and reader sessions (1-3 read-only handles) on one directory with conflicting Open attempts, Opens that fail for other reasons (missing directory, damaged index header, unaligned index) and index loss between sessions, read-only sessions on a damaged newest log and on what a crashed delete leaves behind, two read-only handles on a directory without segments; Open must succeed exactly when the lock state machine allows it, a failed Open must leave the lock free, read-only handles must reject Publish/Delete, answer the battery like the model and like the writer, and leave every *.log byte-identical; distinct_nontrivial counts distinct state signatures of runs with a refused conflicting Open or a checked read-only battery",
 		Trigger:   []string{"open_conflict", "ro_battery"},
 		Assume:    append([]string{"several handles in one process stand for several processes: flock(2) conflicts apply between open file descriptions"}, commonAssume...),
 		Technique: "deterministic simulation: seeded multi-handle open/close sequences vs lock state machine; differential read-only observation"})
 	register(&PropDef{ID: "C20", Engine: "H", Profile: "backup", Hooks: hooksC20, Gen: genPlanC20, Level: "exploration", QuickS: 40, ThorS: 480,
-		Rule:      "one evaluation = one seeded history with Log.Backup / package-level Backup into empty directories and repeated into the same directory across publish-only gaps (rollovers included); after each backup: Check(target), target files = source segment files, observation battery of the opened target = battery of the source at the time of the call, source bytes unchanged; distinct_nontrivial counts distinct state signatures of runs with a repeated backup",
+		Rule:      "one evaluation = one seeded history with Log.Backup (a fifth through a read-only handle as its first call, index files lost) / package-level Backup into empty directories and repeated into the same directory across publish-only gaps (rollovers included); after each backup: Check(target), target log files = source log files, target index files the source's or implied by their log, observation battery of the opened target = battery of the source at the time of the call, source bytes unchanged; distinct_nontrivial counts distinct state signatures of runs with a repeated backup",
 		Trigger:   []string{"backup_repeated"},
 		Assume:    append([]string{"kernel mtime is real (the skip rule compares size and mtime); the property is stated for append-only sources, where a size change accompanies every content change"}, commonAssume...),
 		Technique: "deterministic simulation: seeded history search with repeated backups, differential observation source vs opened backup"})
@@ -96,7 +97,7 @@ func init() {
 		Assume:    dAssume,
 		Technique: "deterministic simulation with fault injection: enumerated stored-byte damage of a head segment, Recover/Check vs reference codec longest-valid-prefix"})
 	register(&PropDef{ID: "C14", Engine: "D", Gen: genPlanD, RunPlan: runPlanD, Level: "fault_enumeration", QuickS: 45, ThorS: 600,
-		Rule:      "one evaluation = one damaged multi-segment V2 log: a 3-5 segment log with keys repeated across segments is built through the real API and one *.log is damaged (single-bit flips, 1-8 byte overwrites, truncation at every length, zero-filled tails; quick: seeded sample of 400 per log, thorough: every position and bit of one segment); the log is reopened with default options and Consume (all offsets x maxCount 1,3,40), Get, GetByKey, ConsumeByKey, GetByTime run under recover() and an allocation meter: never a wrong message, no panic, bounded allocation; for in-place overwrites inside a record every call whose undamaged answer includes the record must fail and every call answered from other files must be unchanged; distinct_nontrivial counts distinct (damage kind, in-record?, damaged segment position) classes",
+		Rule:      "one evaluation = one damaged multi-segment V2 log: a 3-5 segment log with keys repeated across segments is built through the real API and one *.log is damaged (single-bit flips, 1-8 byte overwrites, boundary values in the length fields of records, truncation at every length, zero-filled tails; quick: seeded sample of 400 per log, thorough: every position and bit of one segment); the log is reopened with default options and Consume (all offsets x maxCount 1,3,40), Get, GetByKey, ConsumeByKey, GetByTime run under recover() and an allocation meter: never a wrong message, no panic, bounded allocation; for in-place overwrites inside a record every call whose undamaged answer includes the record must fail and every call answered from other files must be unchanged; distinct_nontrivial counts distinct (damage kind, in-record?, damaged segment position) classes",
 		Assume:    dAssume,
 		Technique: "deterministic simulation with fault injection: enumerated stored-byte damage of one segment of a multi-segment log, differential read battery with must-error / must-equal / never-wrong classification"})
 	sAssume := append([]string{
